@@ -2,21 +2,15 @@
 """Regenerates /verif/MANIFEST.json from the table below (run after claiming a property)."""
 import json
 import os
+import sys
+
+sys.path.insert(0, os.path.dirname(os.path.abspath(__file__)))
 
 VERIF = os.path.dirname(os.path.dirname(os.path.abspath(__file__)))
 
 HOOK_COMMITS = ["a18317b", "8482a65"]
 
-# id -> (technique, level text, level note, design ref)
-CLAIMED = {
-    "C11": ("Coq proof (lia on mod 2^16 + induction over update histories) + exhaustive correspondence of the real write() on all 65536 start values",
-            "Theorems C11_generation_step (all 65536 start values, by arithmetic, no enumeration) and C11_history (invariant over every "
-            "history of complete/interrupted updates) are machine-checked; the model functions pre/post are tied to the code by running the real "
-            "ShmWriter::write() from every start value and comparing the value seen during the copy and after return.",
-            "Trusted: Coq kernel; extraction (ExtrOcamlBasic only); the harness observing the generation through its own mapping at the cell hooks; "
-            "crash = writer stops between two of its stores (process death modelled, not exercised with kill -9).",
-            "DESIGN.md section 6, C11"),
-}
+from claims import CLAIMED  # noqa: E402
 
 ALL = ["C%02d" % i for i in range(1, 20)]
 
